@@ -1121,3 +1121,50 @@ Proof.
   - unfold by_mass. rewrite V. simpl. rewrite lookup_unbind. simpl. unfold new_view, data_rows. simpl.
     destruct (nth_error h (imol s)) as [[]|]; reflexivity.
 Qed.
+
+(* ---------- link_with and the view dict ---------- *)
+Lemma lookup_unbind_other r o m : o <> r -> lookup o (unbind r m) = lookup o m.
+Proof.
+  intros N. induction m as [|[k c] m IH]; simpl; auto. destruct (Nat.eqb k r) eqn:E; simpl.
+  - apply Nat.eqb_eq in E. subst k. destruct (Nat.eqb r o) eqn:E2; [apply Nat.eqb_eq in E2; congruence|exact IH].
+  - destruct (Nat.eqb k o); auto.
+Qed.
+Lemma hp_cache_share st r o : hp (cache_share st r o) = hp st.
+Proof. unfold cache_share. destruct (Nat.eqb r o); auto. destruct (lookup o (cmap st)); reflexivity. Qed.
+Lemma view_share st r o : r <> o -> view_of (cache_share st r o) r = view_of (cache_share st r o) o.
+Proof.
+  intros N. unfold cache_share. destruct (Nat.eqb r o) eqn:E; [apply Nat.eqb_eq in E; congruence|].
+  assert (E2 : Nat.eqb o r = false) by (apply Nat.eqb_neq; auto).
+  destruct (lookup o (cmap st)) as [c|] eqn:L; unfold view_of; simpl; rewrite Nat.eqb_refl.
+  - rewrite E. rewrite lookup_unbind_other by auto. rewrite L. reflexivity.
+  - rewrite E. rewrite Nat.eqb_refl. reflexivity.
+Qed.
+
+(* link_with shares the dict of derived views exactly when data, thermal condition AND phase (for a single-phase
+   stream) are linked, and then the two indexers hold the same data and the same Phase object, so a view built by
+   either is right for both; in every other case the stream gets a new empty dict *)
+Lemma link_view st i j fl ph tp st' s o :
+  nth_error (ss st) i = Some s -> nth_error (ss st) j = Some o -> imol s <> imol o ->
+  link_step st i j fl ph tp = (st', None) ->
+  (tp && fl && (ph || is_multi (hp st) s) = false -> view_of st' (imol s) = None) /\
+  (tp && fl && (ph || is_multi (hp st) s) = true ->
+     view_of st' (imol s) = view_of st' (imol o) /\
+     forall k pb d, nth_error (hp st') (imol o) = Some (CIdxC k pb d) ->
+       exists k', nth_error (hp st') (imol s) = Some (CIdxC k' pb d)).
+Proof.
+  intros Hs Ho N L. unfold link_step in L. rewrite Hs, Ho in L. unfold on2 in L. rewrite Hs, Ho in L.
+  destruct (link_with (hp st) s o fl ph tp) as [[h a] e] eqn:LW. destruct e; [discriminate|].
+  set (st1 := {| hp := h; ss := upd (ss st) i a; cmap := cmap st; caches := caches st |}) in *.
+  destruct (tp && fl && (ph || is_multi (hp st) s)) eqn:C; inversion L; subst st'; clear L; split; try discriminate; intros _.
+  - split; [apply view_share; auto|].
+    intros k pb d Hc. rewrite hp_cache_share in *. change (hp st1) with h in *. unfold link_with in LW.
+    destruct (nth_error (hp st) (imol s)) as [[| | | |ks pbs ds|ks phs ds]|] eqn:Is;
+      destruct (nth_error (hp st) (imol o)) as [[| | | |ko pbo od|ko pho od]|] eqn:Io; try (inversion LW; fail).
+    + inversion LW; subst h a; clear LW.
+      assert (M : is_multi (hp st) s = false) by (unfold is_multi; rewrite Is; reflexivity).
+      rewrite M in C. destruct tp, fl, ph; simpl in C; try discriminate.
+      rewrite wr_other in Hc by auto. rewrite Io in Hc. inversion Hc; subst.
+      exists ks. apply wr_same. eapply nth_error_some_lt; eauto.
+    + inversion LW; subst h a; clear LW. rewrite wr_other in Hc by auto. rewrite Io in Hc. discriminate.
+  - apply view_reset.
+Qed.
